@@ -165,6 +165,11 @@ def run_one(leg, case, stats, known):
         stats.evaluations += 1
         stats.cases += 1
         return problem
+    # ambient process state alternates pseudo-randomly from case to case (a per-shard assignment aliased with the enumeration order)
+    if not _STATE.get("pinned"):
+        want = _HOSTILE_ON and ((stats.cases * 2654435761) >> 9) & 1 == 1
+        if want != _STATE["hostile"]:
+            process_state(want)
     note = Note()
     try:
         problem = leg.check(case, note)
@@ -216,6 +221,7 @@ def _run_shard(args):
     leg = [l for l in mod.LEGS if l.name == legname][0]
     stats = Stats(legname)
     known = _known_for(mod)
+    process_state(False)
     try:
         if getattr(leg, "machine", None) is not None:
             _run_machine(leg, stats, tier, seed, shard, nshards, n)
@@ -244,6 +250,30 @@ def _run_shard(args):
             stats.harness_error = traceback.format_exc()
     stats.wall = time.time() - t0
     return stats
+
+
+_HOSTILE_ON = os.environ.get("VERIF_HOSTILE", "1") != "0"
+_STATE = {"hostile": None}
+
+
+def process_state(hostile):
+    """About every second case runs in a process whose ambient state is unfriendly: numpy traps floating-point errors, RuntimeWarnings are errors,
+    the decimal context has 3 digits.  A decoder must not lean on the defaults (the unchanged tree is clean under all three)."""
+    import decimal
+    import warnings
+
+    import numpy as np
+
+    _STATE["hostile"] = bool(hostile)
+    warnings.resetwarnings()
+    warnings.simplefilter("ignore")
+    if hostile:
+        np.seterr(divide="raise", over="raise", invalid="raise", under="ignore")  # (underflow of denormal inputs is not an error anywhere)
+        warnings.filterwarnings("error", category=RuntimeWarning)
+        decimal.getcontext().prec = 3
+    else:
+        np.seterr(divide="warn", over="warn", under="ignore", invalid="warn")
+        decimal.getcontext().prec = 28
 
 
 def _run_hyp(leg, stats, known, tier, seed, shard, nshards, n):
@@ -336,9 +366,8 @@ def _run_machine(leg, stats, tier, seed, shard, nshards, n):
 def generic_shrink(leg, case, known):
     """Greedy simplification of an enumerated failing case (keeps it failing)."""
     def fails(c):
-        st = Stats(leg.name)
         try:
-            return run_one(leg, c, st, []) is not None
+            return _run_pinned(leg, c, False) is not None or _run_pinned(leg, c, True) is not None
         except Exception:
             return False
 
@@ -397,7 +426,7 @@ def run_check(modname, tier, seed, only_legs=None):
             if leg.enum is not None or getattr(leg, "machine", None) is not None:
                 ns = NPROC
             else:
-                ns = max(1, min(NPROC, n // 300))
+                ns = max(2, min(NPROC, n // 300))
         for sh in range(ns):
             tasks.append((modname, leg.name, tier, seed, sh, ns, n))
     per_leg = collections.OrderedDict((l.name, Stats(l.name)) for l in mod.LEGS
@@ -470,12 +499,26 @@ def replay_stored(mod, per_leg):
             continue
         if json.dumps(body["case"], sort_keys=True) in known_witness:
             continue  # the witness of a listed known finding is reported by probe_known, not here
-        st = Stats(body["leg"])
-        problem = run_one(legs[body["leg"]], body["case"], st, [])
+        problem = None
+        for hostile in (False, True):
+            problem = _run_pinned(legs[body["leg"]], body["case"], hostile)
+            if problem is not None:
+                break
         out["n"] += 1
         if problem is not None:
             out["failed"].append((body["leg"], {"case": body["case"], "problem": "stored regression input %s fails again: %s" % (os.path.basename(path), problem)}, path))
     return out
+
+
+def _run_pinned(leg, case, hostile):
+    """run one case with the ambient process state pinned"""
+    try:
+        process_state(hostile)
+        _STATE["pinned"] = True
+        return run_one(leg, case, Stats(leg.name), [])
+    finally:
+        _STATE["pinned"] = False
+        process_state(False)
 
 
 def probe_known(mod):
@@ -530,6 +573,7 @@ def build_evidence(mod, per_leg, tier, seed, wall, nviol, known_info):
         "exhaustive_legs": [l.name for l in mod.LEGS if l.exhaustive],
         "legs": legs,
         "known_findings": known_info,
+        "process_state": "about half of the cases (pseudo-randomly) run with numpy trapping divide/overflow/invalid, RuntimeWarning as an error and a 3-digit decimal context; the others with the defaults",
         "tree": SRC,
     }
     extra = getattr(mod, "EXTRA_COVERAGE", None)
@@ -555,8 +599,13 @@ def run_replay(modname, path):
     with open(path) as f:
         body = json.load(f)
     leg = [l for l in mod.LEGS if l.name == body["leg"]][0]
-    st = Stats(leg.name)
-    problem = run_one(leg, body["case"], st, [])
+    problem = None
+    for hostile in (False, True):  # a stored case is replayed under both ambient process states
+        problem = _run_pinned(leg, body["case"], hostile)
+        if problem is not None:
+            problem = "[process state: %s] %s" % ("numpy traps / RuntimeWarning=error / decimal prec 3" if hostile else "defaults", problem)
+            break
+    process_state(False)
     if problem is not None:
         print("replay %s leg=%s: %s" % (path, leg.name, problem))
         print("VIOLATION property=%s replay=%s" % (mod.PROPERTY, path))
